@@ -263,6 +263,13 @@ point, any change on a law with a cached helper sampler); distinct by hash of th
     ctx.run_prop_par("bulk", ctx.scale(300, 6_000), 16, bulk_strat, check_bulk);
     // byte-decoded histories (all distributions mixed; exercises the fuzz decoder)
     ctx.run_prop_par("bytes", ctx.scale(4_000, 50_000), 8, || proptest::collection::vec(any::<u8>(), 0..160).prop_map(|bytes| BytesCase { bytes }), check_bytes);
+    // coverage-guided campaign (libFuzzer, ASan) over the same decoder and oracle: thorough tier only
+    if !ctx.quick() {
+        crate::engine::fuzzdrv::run(
+            ctx,
+            crate::engine::fuzzdrv::Campaign { target: "c18", runs_per_job: 60000, jobs: 8, max_len: 400, seeds: vec![vec![3, 0, 0, 0, 0, 1, 0, 1, 0, 5, 1, 1, 9], (0u8..150).map(|i| i.wrapping_mul(37)).collect::<Vec<u8>>(), vec![12, 1, 1, 1, 1, 2, 1, 200, 3, 3, 1, 0, 0, 4, 4, 4]] },
+        );
+    }
 }
 
 /// Bulk reproducibility: one `sample_n(n)` / `sample_matrix(r, c)` call from a fixed seed, for sizes on
